@@ -9,7 +9,8 @@
     `Float` instance is bit-exact against the harness build; at a field instance the same text is the exact-arithmetic algorithm.
 
   Entry points (named after the C++ methods): `UpperHessenbergQR.compute`, `.matrix_R`, `.matrix_QtHQ`, `.apply_QY`, `.apply_QtY`
-  (vector overloads), `.apply_QY_mat`, `.apply_QtY_mat`, `.apply_YQ`, `.apply_YQt` (matrix overloads).
+  (vector overloads), `.apply_QY_mat`, `.apply_QtY_mat`, `.apply_YQ`, `.apply_YQt` (matrix overloads), `.recompute` (`compute` on an
+  object that already holds a factorization).
   Core Lean only.
 -/
 import SpectraVerif.Model.Lin
@@ -49,6 +50,10 @@ def addDiag (M : Mat α) (n : Nat) (d : α) : Mat α :=
   (List.range n).foldl (fun M i => M.set i i (M.get i i + d)) M
 def subDiag (M : Mat α) (n : Nat) (d : α) : Mat α :=
   (List.range n).foldl (fun M i => M.set i i (M.get i i - d)) M
+
+/-- Eigen `v.resize(k)` on a dynamically sized vector: the storage and its contents are kept when the size does not change,
+    otherwise the storage is reallocated and the contents are unspecified (every entry `junk`) -/
+def vresize (v : Vec α) (k : Nat) (junk : α) : Vec α := if v.size = k then v else Array.replicate k junk
 
 /-- data members of `UpperHessenbergQR` (`m_computed` is implied: a value of this type exists only after `compute`) -/
 structure UpperHessenbergQR (α : Type) where
@@ -114,6 +119,29 @@ def apply_YQ (q : UpperHessenbergQR α) (Y : Mat α) : Mat α :=
 /-- `apply_YQt(GenericMatrix)` -/
 def apply_YQt (q : UpperHessenbergQR α) (Y : Mat α) : Mat α :=
   (downFrom q.n).foldl (fun Y i => colsPair (rotG (vget q.cos i) (vget q.sin i)) Y i Y.rows) Y
+
+/-! ### `compute` called on an object that already holds a factorization (the solvers' restart loops reuse one object per shift) -/
+
+/-- body of the main loop of `compute` on an EXISTING object: the same statements as `computeStep`, the rotation is stored by
+    `m_rot_cos.coeffRef(i) = c` into the (resized) arrays the object already owns -/
+def recomputeStep (n : Nat) (st : Mat α × Vec α × Vec α) (i : Nat) : Mat α × Vec α × Vec α :=
+  let R := zeroBelow st.1 n i
+  let xi := R.get i i
+  let xj := R.get (i + 1) i
+  let rcs := Gen.Givens.compute_rotation xi xj
+  let r := rcs.1; let c := rcs.2.1; let s := rcs.2.2
+  let R := (R.set i i r).set (i + 1) i zero
+  let R := rowsPair (rotT c s) R i (i + 1) (n - i - 1)
+  (R, vset st.2.1 i c, vset st.2.2 i s)
+
+/-- `old.compute(mat, shift)`: `m_n`, `m_shift` assigned; `m_mat_R.resize(n, n)` followed by the whole-matrix assignment
+    `m_mat_R.noalias() = mat`; `m_rot_cos/sin.resize(n - 1)` (`vresize`: contents kept when the size is unchanged, `junk` otherwise)
+    and then written entry by entry.  `c08_hqr_recompute` proves that nothing of `old` / `junk` survives. -/
+def recompute (old : UpperHessenbergQR α) (junk : α) (mat : Mat α) (shift : α) : UpperHessenbergQR α :=
+  let n := mat.rows
+  let R0 := subDiag (Mat.ofFn n n (fun i j => mat.get i j)) n shift
+  let st := (List.range (n - 1)).foldl (recomputeStep n) (R0, vresize old.cos (n - 1) junk, vresize old.sin (n - 1) junk)
+  ⟨n, st.1, shift, st.2.1, st.2.2⟩
 
 end UpperHessenbergQR
 end
